@@ -37,7 +37,7 @@ func cssEscape(r *rand.Rand) string {
 		// the escape never absorbs the next name character or the first byte of a following whitespace token
 		return s + Pick(r, []string{" ", " ", "\t", "\n"})
 	case 1:
-		return "\\" + Pick(r, []string{"g", "z", "G", "-", "!", "\"", "'", "(", ")", "\\", ".", "#", "@", " ", ":", ";", "{", "~", "+"})
+		return "\\" + Pick(r, []string{"g", "z", "G", "-", "!", "\"", "'", "(", ")", "\\", ".", "#", "@", " ", ":", ";", "{", "~", "+", "\x10", "\x15", "\x19", "\x01", "\x7f", "`", "/", "*"})
 	default:
 		return "\\" + Pick(r, []string{"é", "日", "😀"})
 	}
